@@ -173,7 +173,7 @@ def run_one(m):
             return res
         res["status"] = "survived-tests"
         res["checks"] = {}
-        env = dict(os.environ, VERIF_REPO=w, VERIF_NO_COQCHK="1")
+        env = dict(os.environ, VERIF_REPO=w, VERIF_NO_COQCHK="1", VERIF_NCPU="4")
         for p in m["props"]:
             try:
                 c = subprocess.run([os.path.join(V, "check"), p, "quick"], cwd=V, env=env, capture_output=True, text=True, timeout=700)
